@@ -414,7 +414,7 @@ RefreshClearsPending == [][(IsPkt(last') /\ Learnable(last'.args.sw, last'.args.
 CountsOnce == [][IsCt(last') => \A g \in last'.exp.pings :
   hosts'[g[3]].ips[g[4]].pend = hosts[g[3]].ips[g[4]].pend + 1]_vars
 \* D7: a MAC entry lives as long as the configured arpAware says
-MacLifeConfigured == MacLife = ArpAware
+MacLifeConfigured == \A m \in Macs : Present(hosts[m]) => MacLife = ArpAware
 
 \* only the timer firing makes the timer due again a full interval later; the timer fires exactly when due
 TimerExact == [][IF IsCt(last') THEN tph = TimerInterval /\ tph' = 0 ELSE tph' >= tph /\ tph' <= TimerInterval]_vars
